@@ -44,6 +44,12 @@ def tasks(tier, seed):
                        "T": 8 if vroom else (40 if tier == "quick" else 100), "R": list(configs.R3), "base": base,
                        "k": 1 if tier == "quick" else (1 if vroom else 2),
                        "max_exec": 3000 if tier == "quick" else 60000})
+    # schedule-driven algorithms reach other phases only with larger budgets
+    for n in (600, 1000):
+        for part, K, box in (("Binary", None, "u1"), ("Kary", 3, "u1")):
+            cfg = configs.cfg("StroquOOL", part, K, configs.BOXES[box], n=n)
+            ts.append({"kind": "algo", "label": "dev/StroquOOL%d/%s" % (n, part), "cfg": cfg, "mode": "dev", "T": 60 if tier == "quick" else 150,
+                       "R": list(configs.R3), "base": "peak", "k": 1, "max_exec": 3000 if tier == "quick" else 60000})
     return ts
 
 
